@@ -39,6 +39,8 @@ class OversamplingWrapper(KDSubset):
                     perm = torch.arange(len(indices_for_cur_class))[:remaining_indices]
                     indices.append(indices_for_cur_class[perm])
                     remaining_indices -= len(perm)
+            # unlabeled samples (-1) belong to no class: keep them once, like mode="multiply" does
+            indices.append((classes == -1).nonzero().squeeze(1))
             indices = torch.concat(indices)
         else:
             raise NotImplementedError(f"invalid oversampling mode '{self.mode}'")
